@@ -335,6 +335,9 @@ pub fn run(ctx: &mut Ctx) {
           if remaining < 0x400 {
             break 'outer; // stop just before the cache would overflow (that is C04's finding)
           }
+          if blocks >= 7000 {
+            break 'outer; // more translated code than the 8 MiB cache holds has been produced
+          }
           core.registers.ip = 0x4000 + (k as u32) * 0x40;
           core.registers.sp = 0xdff0;
           core.run_state = crate::emulator::RunState::Run;
